@@ -656,7 +656,7 @@ def group_obligations(group: str, version: str, uri: str, prop: str) -> list:
                 else:
                     singles.append(Obligation(f'{base}:rt:{label}', kind='post', assumptions=asm, goal=goal,
                                               finding='K7' if sens else None, restricted=k7 if sens else None,
-                                              vacuity=False,
+                                              vacuity=False, replay=make_replay(group, version, x),
                                               detail=f'load(dump(x)) == x restricted to LMF {version}: {label}', **cm))
             zgoals = [g for _, g in items if not isinstance(g, bool)]
             decided = all(g for _, g in items if isinstance(g, bool))
@@ -922,7 +922,7 @@ def lexicon_obligations(version: str, uri: str, prop: str) -> list:
                 else:
                     singles.append(Obligation(f'{base}:rt:{label}', kind='post', assumptions=asm, goal=goal,
                                               finding='K7' if sens else None, restricted=k7 if sens else None,
-                                              vacuity=False,
+                                              vacuity=False, replay=make_replay('lexicon', version, x),
                                               detail=f'load(dump(x)) == x restricted to LMF {version}: {label}', **cm))
             zgoals = [g for _, g in items if not isinstance(g, bool)]
             if not all(g for _, g in items if isinstance(g, bool)) or not zgoals:
@@ -934,3 +934,149 @@ def lexicon_obligations(version: str, uri: str, prop: str) -> list:
                                    detail=f'load(dump(x)) == x restricted to LMF {version}: '
                                           f'{[l for l, _ in items]}'[:400], **cm), singles))
     return obs
+
+
+# ---- counterexample replay: z3 model -> concrete record -> the real dump / load ------------------------------------
+
+class Concretiser:
+    def __init__(self, model):
+        self.m = model
+        self.names: dict = {}
+        for s, c in LITS.by_text.items():
+            v = model.eval(c, model_completion=True)
+            self.names[str(v)] = s
+
+    def string(self, z) -> str:
+        v = str(self.m.eval(z, model_completion=True))
+        if v not in self.names:
+            self.names[v] = f'v{len(self.names)}'
+        return self.names[v]
+
+    def truth(self, b) -> bool:
+        if isinstance(b, bool):
+            return b
+        return z3.is_true(self.m.eval(b, model_completion=True))
+
+    def value(self, v, depth=0):
+        if isinstance(v, SV):
+            if v.kind == 'str':
+                return self.string(v.z)
+            if v.kind == 'bool':
+                return self.truth(v.z)
+            if v.kind == 'int':
+                return self.m.eval(v.z, model_completion=True).as_long()
+            return str(self.m.eval(v.z, model_completion=True))
+        if isinstance(v, SOptRec):
+            return self.value(v.rec, depth) if self.truth(v.present) else None
+        if isinstance(v, SRec):
+            return {k: self.value(s.value, depth + 1) for k, s in v.slots.items() if self.truth(s.present)}
+        if isinstance(v, SList):
+            n = self.m.eval(v.length, model_completion=True).as_long()
+            n = max(0, min(n, 3))
+            return [self.value(v.at(z3.IntVal(i)), depth + 1) for i in range(n)]
+        if v is None or isinstance(v, (str, int, bool)):
+            return v
+        return repr(v)
+
+
+def wrap_for_roundtrip(group: str, rec: dict, version: str) -> dict:
+    """A minimal resource holding the record of `group`."""
+    lex = {'id': 'w', 'label': 'L', 'language': 'en', 'email': 'e', 'license': 'l', 'version': '1', 'meta': None}
+    external = bool(rec.get('external')) if isinstance(rec, dict) else False
+    if group == 'lexicon':
+        return {'lmf_version': version, 'lexicons': [rec]}
+    if external:
+        lex['extends'] = {'id': 'base', 'version': '1'}
+    lemma = {'writtenForm': 'w', 'partOfSpeech': 'n'}
+    if group == 'lemma':
+        e = {'id': 'w-e', 'lemma': rec}
+        e.update({'external': True} if external else {'meta': None})
+        lex['entries'] = [e]
+    elif group == 'form':
+        lex['entries'] = [{'id': 'w-e', 'meta': None, 'lemma': lemma, 'forms': [rec]}]
+        if external:
+            lex['entries'] = [{'id': 'w-e', 'external': True, 'forms': [rec]}]
+    elif group == 'sense':
+        lex['entries'] = [{'id': 'w-e', 'meta': None, 'lemma': lemma, 'senses': [rec]}]
+        if external:
+            lex['entries'] = [{'id': 'w-e', 'external': True, 'senses': [rec]}]
+    elif group == 'frame':
+        if version == '1.0':
+            lex['entries'] = [{'id': 'w-e', 'meta': None, 'lemma': lemma, 'frames': [rec]}]
+        else:
+            lex['frames'] = [rec]
+    elif group == 'synset':
+        lex['synsets'] = [rec]
+    elif group == 'entry':
+        lex['entries'] = [rec]
+    return {'lmf_version': version, 'lexicons': [lex]}
+
+
+def make_replay(group: str, version: str, x: SRec):
+    """replay(result) for an obligation of the round trip of `group`: the solver's model as a concrete record, run
+    through the real lmf.dump / lmf.load; reproduced iff the reloaded resource differs from the dumped one
+    (restricted to the version) or the real code raises."""
+    def replay(res):
+        import os
+        import tempfile
+        if res.z3model is None:
+            return {'reproduced': False}
+        m = small_model(res, [x])
+        from bounded import lmfgen
+        from bounded.lmf_roundtrip import diff
+        rec = Concretiser(m).value(x)
+        resource = wrap_for_roundtrip(group, rec, version)
+        out = {'input_resource': resource, 'call': f'lmf.dump(resource, f); lmf.load(f)  [LMF {version}]'}
+        d = tempfile.mkdtemp(prefix='wnreplay')
+        try:
+            p = os.path.join(d, 'r.xml')
+            lmf.dump(resource, p)
+            back = lmf.load(p, progress_handler=None)
+            want = lmfgen.project(resource, version)
+            delta = diff(back, want)
+            out['observed'] = '; '.join(delta) if delta else 'round trip is the identity on this input'
+            out['reproduced'] = bool(delta)
+        except Exception as exc:   # noqa: BLE001
+            out['observed'] = f'{type(exc).__name__}: {exc}'
+            out['reproduced'] = True
+        finally:
+            import shutil
+            shutil.rmtree(d, ignore_errors=True)
+        return out
+    return replay
+
+
+def length_caps(v, cap: int, depth: int = 0) -> list:
+    """Constraints 0 <= len <= cap for every list reachable from the record (elements 0..cap-1 instantiated)."""
+    out = []
+    if depth > 6:
+        return out
+    if isinstance(v, SOptRec):
+        v = v.rec
+    if isinstance(v, SRec):
+        for s in v.slots.values():
+            out += length_caps(s.value, cap, depth + 1)
+    elif isinstance(v, SList):
+        out += [v.length >= 0, v.length <= cap]
+        for i in range(cap):
+            out += length_caps(v.at(z3.IntVal(i)), cap, depth + 1)
+    return out
+
+
+def small_model(res, records, caps=(1, 2, 3)):
+    """A model of the refuted obligation with short lists (so that the witness survives concretisation); falls back
+    to the solver's own model."""
+    ob = res.ob
+    for cap in caps:
+        s = z3.Solver()
+        s.set('timeout', 8000)
+        from vc.core import relevant_axioms
+        for a in list(ob.assumptions) + relevant_axioms(ob):
+            s.add(a)
+        s.add(z3.Not(ob.goal))
+        for r in records:
+            for c in length_caps(r, cap):
+                s.add(c)
+        if s.check() == z3.sat:
+            return s.model()
+    return res.z3model
